@@ -16,6 +16,7 @@ import (
 	"github.com/feichai0017/NoKV/manifest"
 	"github.com/feichai0017/NoKV/metrics"
 	"github.com/feichai0017/NoKV/utils"
+	"github.com/feichai0017/NoKV/utils/verifhook"
 	"github.com/feichai0017/NoKV/vfs"
 )
 
@@ -204,6 +205,7 @@ func (lm *levelManager) flush(immutable *memTable) (err error) {
 		builder.AddKey(entry)
 	}
 	table := openTable(lm, sstName, builder)
+	verifhook.Point("lsm.flush.tableBuilt")
 	if table == nil {
 		return fmt.Errorf("failed to build sstable %s", sstName)
 	}
@@ -229,6 +231,7 @@ func (lm *levelManager) flush(immutable *memTable) (err error) {
 	if err := lm.manifestMgr.LogEdits(fileEdit, pointerEdit); err != nil {
 		return err
 	}
+	verifhook.Point("lsm.flush.manifestLogged")
 	lm.setLogPointer(immutable.segmentID, uint64(atomic.LoadInt64(&immutable.walSize)))
 	lm.levels[0].add(table)
 	if lm.canRemoveWalSegment(uint32(fid)) {
@@ -236,6 +239,7 @@ func (lm *levelManager) flush(immutable *memTable) (err error) {
 			return err
 		}
 	}
+	verifhook.Point("lsm.flush.walRemoved")
 	if lm.compaction != nil {
 		lm.compaction.Trigger("flush")
 	}
